@@ -127,6 +127,13 @@ def panic_sites(facts, skip=lambda b: False):
             t = bl['term']
             if t['k'] == 'assert':
                 desc = '%s:%s' % (t['kind'], ','.join(operand_origin(b, bi, o) for o in t['ops']))
+                if t['kind'] in ('DivisionByZero', 'RemainderByZero'):
+                    # the message operand is the dividend; what matters is the divisor: `cond = Eq(divisor, 0)`
+                    c = t.get('cond')
+                    if c and c.get('k') in ('copy', 'move') and not c['place']['proj']:
+                        ds = _defs_of(b, c['place']['local'])
+                        if len(ds) == 1 and 'rv' in ds[0][1] and ds[0][1]['rv']['k'] == 'binop' and ds[0][1]['rv']['op'] == 'Eq':
+                            desc += '/' + operand_origin(b, ds[0][0], ds[0][1]['rv']['a'])
                 yield {'kind': 'assert', 'body': b, 'block': bi, 'term': t, 'desc': desc, 'span': t['span']}
             elif t['k'] == 'call':
                 d, r = strip_generics(t['decl']), strip_generics(t['res'])
